@@ -63,6 +63,11 @@ add('C12', 'fault_enumeration',
     'Arbitrary endpoint pairs / weight vectors of the free slerp() function are input generation and not claimed; first and last rows are never lost; spin below pi rad per tick.',
     'deterministic simulation: enumerated loss/signflip fault masks on a recorder link, reference-model comparison', 'DESIGN.md section 2 C12')
 
+add('C19', 'exploration',
+    'Weakest fit, stated as such: the sensor-bus pipeline with every estimator class streamed and batch-constructed on shared zero-copy arrays under a seeded interleaving, with a bus monitor digesting every caller-owned buffer after every task step, plus a toolbox task that applies ~200 public callables (found by introspection, bound to live data: estimates, samples, matrices, angles in degrees/radians, normalised or not, scalars/0-d/1-d/N-row arrays) twice each with the RNG restored: argument bytes must be unchanged and results identical.',
+    'The verdict of one call is a before/after digest; the simulation decides which buffers are live and shared. Callables the binder cannot serve or that reject the generated arguments are listed/counted in the evidence, not counted as covered; inplace=True options are not exercised.',
+    'deterministic simulation: shared-buffer monitor under a seeded scheduler + introspected toolbox task on live data', 'DESIGN.md section 2 C19')
+
 def build():
     m = {
         'version': 1,
